@@ -683,10 +683,10 @@ Qed.
 (* the same label program after write + read (the [BLOCKS] rows are integers and come back as they are:
    C01): evaluate_labels of the re-read sequence sees exactly the blocks it saw before *)
 Theorem table_lblocks_reread : forall c0 c c' bs,
-  file_ready c -> ext_l c0 = lib_empty -> blocks c0 = blocks c -> reread_ext c0 c = Some c' ->
+  file_ready c -> ext_l c0 = lib_empty -> reread_ext c0 c = Some c' ->
   table_lblocks c = Some bs -> blocks c' = blocks c -> table_lblocks c' = Some bs.
 Proof.
-  intros c0 c c' bs FR E0 _ R H Eb. unfold table_lblocks in *. rewrite Eb.
+  intros c0 c c' bs FR E0 R H Eb. unfold table_lblocks in *. rewrite Eb.
   revert bs H. generalize (akeys (blocks c)) as ks. induction ks as [|i r IH]; cbn [map_opt]; intros bs H; [exact H|].
   destruct (row_lblock c i) as [b|] eqn:Rb; [|discriminate].
   assert (Rb' : row_lblock c' i = Some b).
@@ -696,4 +696,24 @@ Proof.
     pose proof (dec_ext_reread c0 c c' FR E0 R _ _ _ D) as D'.
     rewrite (dec_ext_std c' _ _ _ D'). rewrite labels_file_payload. exact Rb. }
   rewrite Rb'. destruct (map_opt (row_lblock c) r) as [s|]; [|discriminate]. rewrite (IH s eq_refl). exact H.
+Qed.
+
+(* evaluate_labels over the block table; equal to the evaluation through get_block whenever every
+   get_block succeeds, and unchanged by write + read *)
+Definition eval_table (c : core) (init : env) (m : emode) : option (list (Z * list Z) * bool) :=
+  option_map (evaluate_labels init m) (table_lblocks c).
+
+Theorem eval_store_is_eval_table : forall c init m x, eval_store c init m = Some x -> eval_table c init m = Some x.
+Proof.
+  intros c init m x H. unfold eval_store, eval_table in *.
+  destruct (store_lblocks c) as [bs|] eqn:E; [|discriminate]. rewrite (store_table_lblocks c bs E). exact H.
+Qed.
+
+Theorem eval_labels_reread : forall c0 c c' init m x,
+  file_ready c -> ext_l c0 = lib_empty -> reread_ext c0 c = Some c' -> blocks c' = blocks c ->
+  eval_table c init m = Some x -> eval_table c' init m = Some x.
+Proof.
+  intros c0 c c' init m x FR E0 R Eb H. unfold eval_table in *.
+  destruct (table_lblocks c) as [bs|] eqn:E; [|discriminate].
+  rewrite (table_lblocks_reread c0 c c' bs FR E0 R E Eb). exact H.
 Qed.
